@@ -497,4 +497,135 @@ theorem emit_dinv {c : Cx} {bal0 : Acct → Asset → Int} {d : Acct} {A : Asset
     rw [emit_cons]
     exact h2.congr (fun x A' => by rw [flOf_cons A p ps]; omega)
 
+/-! ### occurrences of accounts as sources, and the overdraft each occurrence is evaluated with -/
+
+/-- one occurrence of an account in source position: the asset it is withdrawn in and the overdraft it is
+withdrawn with (`none` = the literal `@world` or `allowing unbounded overdraft`) -/
+structure Occ where
+  acct : Acct
+  asset : Asset
+  od : Option Int
+
+mutual
+def sourceOcc (env : VEnv) (asset : Asset) : Source → List Occ
+  | .acct e od =>
+    match evalAcct env e with
+    | .error _ => []
+    | .ok a =>
+      match odVal env asset od with
+      | .error _ => []
+      | .ok (oa, o, unb) => [⟨a, oa, if isWorldLit e || unb then none else some o⟩]
+  | .maxed _ s => sourceOcc env asset s
+  | .inorder ss => sourcesOcc env asset ss
+def sourcesOcc (env : VEnv) (asset : Asset) : SourceList → List Occ
+  | .nil => []
+  | .cons s rest => sourceOcc env asset s ++ sourcesOcc env asset rest
+end
+
+/-- the bound `g` covers the occurrence: unbounded occurrences make the account unbounded, a bounded
+occurrence's overdraft is within the bound -/
+def OccOK (g : Acct → Asset → Option Int) (o : Occ) : Prop :=
+  match o.od with
+  | none => g o.acct o.asset = none
+  | some v => ∀ gv, g o.acct o.asset = some gv → v ≤ gv
+
+mutual
+/-- **sources**: what a source provides is added to the flight, every part of it is non-negative and tracked,
+and a fallback account (`withdrawAlways` target) is always an unbounded one -/
+theorem evalSource_binv (c : Cx) (R : Acct → Asset → Int) (env : VEnv) (asset : Asset) :
+    (s : Source) → (b b' : Bal) → (f : Fund) → (fb : Option Acct) → (fl : Acct → Asset → Int) →
+    evalSource env asset s b = .ok (f, fb, b') → (∀ o ∈ sourceOcc env asset s, OccOK c.g o) → BInv c R b fl →
+    BInv c R b' (fun x A => fl x A + flOf f x A) ∧ Good c f ∧ (∀ w, fb = some w → c.g w f.asset = none)
+  | .acct e od, b, b', f, fb, fl, h, hocc, hi => by
+    obtain ⟨a, oa, o, unb, p, ha, hv, hw, rfl, rfl⟩ := evalSource_acct_inv h
+    have hocc' := hocc ⟨a, oa, if isWorldLit e || unb then none else some o⟩ (by simp [sourceOcc, ha, hv])
+    by_cases hu : (isWorldLit e || unb) = true
+    · simp only [hu, if_true, OccOK] at hocc' ⊢
+      have := withdrawAll_binv (c := c) (R := R) (fl := fl) hw
+        (fun _ gv hgv => by rw [hocc'] at hgv; cases hgv) hi
+      refine ⟨this.1, this.2, ?_⟩
+      intro w hw'; cases hw'; exact hocc'
+    · simp only [hu, OccOK] at hocc' ⊢
+      have := withdrawAll_binv (c := c) (R := R) (fl := fl) hw (fun _ gv hgv => hocc' gv hgv) hi
+      refine ⟨this.1, this.2, ?_⟩
+      intro w hw'; simp at hw'
+  | .maxed cap s, b, b', f, fb, fl, h, hocc, hi => by
+    obtain ⟨f0, fb0, b1, ma, mn, hs, _, hmn, ha, rfl, hc⟩ := evalSource_maxed_inv h
+    obtain ⟨h1, hg0, hfb0⟩ := evalSource_binv c R env asset s b b1 f0 fb0 fl hs
+      (fun o ho => hocc o (by simpa [sourceOcc] using ho)) hi
+    have hsplit := fun x A => flOf_takeMax f0.asset f0.parts mn x A
+    have hgs := Good.takeMax hg0.eta mn
+    have h2 := repay_binv (takeMax f0.parts mn).2 b1 _ hgs.2 h1
+    rcases hc with ⟨_, rfl, rfl⟩ | ⟨w, p, hfb, hw, hasm⟩
+    · refine ⟨h2.congr (fun x A => ?_), hgs.1, fun w hw' => by cases hw'⟩
+      have := hsplit x A; rw [flOf_eta] at this; omega
+    · have hgw : c.g w ma = none := by rw [← ha]; exact hfb0 w hfb
+      obtain ⟨h3, hgp⟩ := withdrawAlways_binv hw (Or.inr hgw) (missingOf_nonneg mn f0.parts) h2
+      refine ⟨h3.congr (fun x A => ?_), Good.pair hasm hgs.1 hgp, fun w hw' => by cases hw'⟩
+      have := hsplit x A; rw [flOf_eta] at this
+      rw [flOf_pair hasm]; omega
+  | .inorder ss, b, b', f, fb, fl, h, hocc, hi => by
+    obtain ⟨fs, hs, hasm⟩ := evalSource_inorder_inv h
+    obtain ⟨h1, hg, hfb⟩ := evalSources_binv c R env asset ss b b' fs fb fl hs
+      (fun o ho => hocc o (by simpa [sourceOcc] using ho)) hi
+    refine ⟨h1.congr (fun x A => by rw [flOf_assemble hasm]), Good.assemble hasm hg, ?_⟩
+    intro w hw
+    obtain ⟨⟨l, hl, hla⟩, _, _⟩ := assemble_ok hasm
+    rw [hla]; exact hfb w hw l hl
+theorem evalSources_binv (c : Cx) (R : Acct → Asset → Int) (env : VEnv) (asset : Asset) :
+    (ss : SourceList) → (b b' : Bal) → (fs : List Fund) → (fb : Option Acct) → (fl : Acct → Asset → Int) →
+    evalSources env asset ss b = .ok (fs, fb, b') → (∀ o ∈ sourcesOcc env asset ss, OccOK c.g o) → BInv c R b fl →
+    BInv c R b' (fun x A => fl x A + (fs.map (fun f => flOf f x A)).sum) ∧ (∀ f ∈ fs, Good c f) ∧
+      (∀ w, fb = some w → ∀ l, fs.getLast? = some l → c.g w l.asset = none)
+  | .nil, b, b', fs, fb, fl, h, _, hi => by
+    obtain ⟨rfl, rfl, rfl⟩ := evalSources_nil_inv h
+    refine ⟨hi.congr (fun x A => by simp), fun f hf => by simp at hf, fun w hw => by cases hw⟩
+  | .cons s rest, b, b', fs, fb, fl, h, hocc, hi => by
+    obtain ⟨f, fb1, b1, fs', fb2, hs, hr, rfl, rfl⟩ := evalSources_cons_inv h
+    obtain ⟨h1, hg1, hfb1⟩ := evalSource_binv c R env asset s b b1 f fb1 fl hs
+      (fun o ho => hocc o (by simp only [sourcesOcc, List.mem_append]; exact Or.inl ho)) hi
+    obtain ⟨h2, hg2, hfb2⟩ := evalSources_binv c R env asset rest b1 b' fs' fb2 _ hr
+      (fun o ho => hocc o (by simp only [sourcesOcc, List.mem_append]; exact Or.inr ho)) h1
+    refine ⟨h2.congr (fun x A => by simp only [List.map_cons, List.sum_cons]; omega), ?_, ?_⟩
+    · intro g hg
+      rcases List.mem_cons.mp hg with rfl | hg
+      · exact hg1
+      · exact hg2 g hg
+    · intro w hw l hl
+      cases rest with
+      | nil =>
+        obtain ⟨rfl, _, _⟩ := evalSources_nil_inv hr
+        simp only [List.getLast?_singleton, Option.some.injEq] at hl
+        subst hl
+        exact hfb1 w hw
+      | cons s2 rest2 =>
+        obtain ⟨f2, _, _, fs2, _, _, _, rfl, _⟩ := evalSources_cons_inv hr
+        rw [List.getLast?_cons_cons] at hl
+        exact hfb2 w hw l hl
+end
+
+/-- `TakeFromSource`: the source funding leaves the flight, the funding taken enters it (what is not needed is
+repaid; what is missing comes from the unbounded fallback account) -/
+theorem takeFromSource_binv {c : Cx} {R : Acct → Asset → Int} {fb : Option Acct} {f t : Fund} {ma : Asset} {mn : Int}
+    {b b' : Bal} {fl : Acct → Asset → Int} (h : takeFromSource fb f ma mn b = .ok (t, b')) (hg : Good c f)
+    (hfb : ∀ w, fb = some w → c.g w f.asset = none) (hi : BInv c R b fl) :
+    BInv c R b' (fun x A => fl x A - flOf f x A + flOf t x A) ∧ Good c t ∧ t.asset = ma := by
+  cases fb with
+  | none =>
+    obtain ⟨taken, rest, ha, ht, rfl, rfl⟩ := takeFromSource_none_inv h
+    have hgs := hg.eta.take ht
+    have h2 := repay_binv rest b _ hgs.2 hi
+    refine ⟨h2.congr (fun x A => ?_), hgs.1, ha⟩
+    have := flOf_take (a := f.asset) ht x A; rw [flOf_eta] at this; omega
+  | some w =>
+    obtain ⟨p, hmn, ha, hw, hasm⟩ := takeFromSource_some_inv h
+    have hsplit := fun x A => flOf_takeMax f.asset f.parts mn x A
+    have hgs := Good.takeMax hg.eta mn
+    have h2 := repay_binv (takeMax f.parts mn).2 b _ hgs.2 hi
+    have hgw : c.g w ma = none := by rw [← ha]; exact hfb w rfl
+    obtain ⟨h3, hgp⟩ := withdrawAlways_binv hw (Or.inr hgw) (missingOf_nonneg mn f.parts) h2
+    refine ⟨h3.congr (fun x A => ?_), Good.pair hasm hgs.1 hgp, (assemble_pair hasm).1⟩
+    have := hsplit x A; rw [flOf_eta] at this
+    rw [flOf_pair hasm]; omega
+
 end Num
